@@ -759,6 +759,12 @@ console.log('live ' + live.size);
         Ok(m) => m,
         Err(e) => { rep.disagree("js-str8", "model-driver", "", &e); vec![] }
     };
+    // the model of `str16` (Props/C16: the view decodes to the string's units and the buffer is exactly that large)
+    let mlines16: Vec<String> = strs.iter().map(|u| format!("(str16 {})", u.iter().map(|x| x.to_string()).collect::<Vec<_>>().join(" "))).collect();
+    let model16: Vec<String> = match crate::model::run_model("C16", &mlines16) {
+        Ok(m) => m,
+        Err(e) => { rep.disagree("js-str16", "model-driver", "", &e); vec![] }
+    };
     let hexs = |b: &[u8]| b.iter().map(|x| format!("{x:02x}")).collect::<String>();
     let unhex = |s: &str| (0..s.len() / 2).map(|i| u8::from_str_radix(&s[2 * i..2 * i + 2], 16).unwrap_or(0)).collect::<Vec<u8>>();
     let mut seen = 0;
@@ -792,6 +798,14 @@ console.log('live ' + live.size);
                 let i: usize = f[1].parse().unwrap();
                 seen += 1;
                 let want: Vec<u8> = strs[i].iter().flat_map(|u| u.to_le_bytes()).collect();
+                if let Some(m) = model16.get(i) {
+                    rep.count("js-str16-model-tie");
+                    let got = unhex(f.get(4).unwrap_or(&""));
+                    let real = format!("{} {} {}", f[2], got.len(), got.iter().map(|b| b.to_string()).collect::<Vec<_>>().join(" "));
+                    if real.trim_end() != m.trim_end() {
+                        rep.disagree(&mlines16[i], "js-str16", real.trim_end(), m.trim_end());
+                    }
+                }
                 if f[2] != strs[i].len().to_string() || f[3] != "0" || unhex(f.get(4).unwrap_or(&"")) != want {
                     rep.oracle_fail(&format!("(c16 probe js-str16 units={:?})", strs[i]), "the UTF-16 view the JS runtime hands to Rust is not the string's code units", json!({"line": l, "expected_bytes": hexs(&want)}));
                 }
